@@ -485,7 +485,10 @@ def oracle(chk, n, n_hankel, n_psd_mat):
     # (odd and even numbers of radial elements, Kolmogorov and von Kármán)
     for nr in (5, 6, 7, 8, 9, 11, 12):
         for ri in (0.12, 0.45):
-            for tag, L0 in (("kolmogorov", None), ("vonKarman", float(rng.choice([0.6, 3.0, 20.0])))):
+            # every spelling of the structure-function tag the kernel accepts, small outer scales included (a series valid for
+            # r << L0 is indistinguishable from the closed form at L0 = 20)
+            for tag, L0 in (("kolmogorov", None), ("kolstf", None), ("vonKarman", float(rng.choice([0.6, 3.0, 20.0]))),
+                            ("karman", float(rng.choice([0.5, 1.0, 3.0]))), ("vk", float(rng.choice([0.5, 1.0, 20.0])))):
                 chk.oracle_cases += 1
                 chk.count("oracle:kl-kernel:%s" % tag)
                 chk.case(("oracle-kl-kernel", nr, ri, tag, L0))
@@ -502,12 +505,17 @@ def oracle(chk, n, n_hankel, n_psd_mat):
                 # rounding of the published constants 6.8839 / 6.88 — is the `copies:*` clauses above), so this comparison is to rounding
                 with numpy.errstate(all="ignore"):
                     want = numpy.asarray(kl.stf_kolmogorov(sep) if L0 is None else kl.stf_vonKarman(sep, L0), dtype=float)
+                if L0 is not None:      # … and the von Kármán copy is the slope-covariance one (closed form: constants agree to 1e-9)
+                    with numpy.errstate(all="ignore"):
+                        want_sc = numpy.asarray(sc.structure_function_vk(sep, 1.0, L0), dtype=float)
+                    if not float(numpy.abs(want - want_sc).max()) <= 1e-6 * float(numpy.abs(want_sc).max()):
+                        want = want_sc
                 err = float(numpy.abs(used - want).max() / numpy.abs(want).max())
                 if not err <= 1e-10:         # observed ≤ 1e-15; a wrong angle or radius gives ≥ 1e-2
                     i, j, k = numpy.unravel_index(int(numpy.argmax(numpy.abs(used - want))), used.shape)
                     bad("copies:kl-kernel:%s:%s-nr" % (tag, "odd" if nr % 2 else "even"),
                         "the structure function inside gkl_kernel(ri=%r, nr=%d, %s%s) is %r for radii %r, %r at azimuth 2π·%d/%d, where "
-                        "stf_%s gives %r at that separation (max deviation %.3g of the largest value)"
+                        "the %s copy gives %r at that separation (max deviation %.3g of the largest value)"
                         % (ri, nr, tag, "" if L0 is None else ", outerscale=%r" % L0, float(used[i, j, k]), float(rad[i]), float(rad[j]),
                            k, nth, "kolmogorov" if L0 is None else "vonKarman", float(want[i, j, k]), err), ri=ri, nr=nr, L0=L0, stfunc=tag)
 
@@ -617,6 +625,38 @@ def input_classes(chk, n):
                     same("layout:" + cls, ev(v, a, b), want, **rp)
 
 
+def float32_separations(chk, n):
+    """phase_covariance converts its separations to double precision before anything else: single-precision separations (exact in
+    float32, so both spellings denote the same geometry) give the double-precision covariance — including at r = 0 for any outer
+    scale, at millimetre separations, and for dense point sets, where a covariance evaluated in float32 is off by per cent, not PSD,
+    or NaN"""
+    from aotools.turbulence import turb
+    rng = chk.rng
+    for it in range(n):
+        r0, L0 = logu(rng, 0.05, 0.5), rng.choice([logu(rng, 1.0, 100.0), logu(rng, 100.0, 1e4), 1e6, 1e7])
+        r64 = numpy.array([0.0, 2 ** -9, 2 ** -8, 3 * 2 ** -9] + [rng.randint(0, 2 ** 16) * 2.0 ** -9 for _ in range(20)])
+        r32 = r64.astype(numpy.float32)
+        assert numpy.array_equal(r32.astype(float), r64)
+        chk.oracle_cases += 1
+        chk.count("oracle:float32-separations")
+        chk.case(("float32-separations", r0, L0, it))
+        with numpy.errstate(all="ignore"):
+            ref = numpy.asarray(turb.phase_covariance(r64, r0, L0), dtype=float)
+            c0 = float(ref[0])
+            for cls, got in (("float32-array", turb.phase_covariance(r32, r0, L0)),
+                             ("float32-scalar", numpy.array([turb.phase_covariance(x, r0, L0) for x in r32[:6]], dtype=float).ravel()),
+                             ("float32-2d", numpy.asarray(turb.phase_covariance(r32.reshape(4, 6), r0, L0)).ravel())):
+                got = numpy.asarray(got, dtype=float).ravel()
+                want = ref[:len(got)]
+                if got.shape != want.shape or not (numpy.isfinite(got).all() and float(numpy.abs(got - want).max()) <= 1e-12 * c0):
+                    k = int(numpy.argmax(numpy.where(numpy.isfinite(got), numpy.abs(got - want), numpy.inf))) if got.shape == want.shape else 0
+                    chk.fail("input-class:phase_covariance:%s" % cls, "phase_covariance(%s r, r0=%.4g, L0=%.4g) differs from the same separations "
+                             "in double precision: %r vs %r at r = %r (C(0) = %.6g)" % (cls, r0, L0, float(got[k]) if len(got) else None,
+                                                                                      float(want[k]), float(r64[k]), c0),
+                             dict(r0=r0, L0=L0, r=r64.tolist(), cls=cls))
+                    break
+
+
 def h1_numeric(chk):
     """the named hypothesis H1 for scipy's K_5/6 on a grid (reported, not a verdict: it is a fact about scipy, not aotools)"""
     from scipy.special import kv
@@ -673,5 +713,6 @@ def run(chk):
     else:
         oracle(chk, 20000, 300, 10000)
     input_classes(chk, 6 if quick else 200)
+    float32_separations(chk, 8 if quick else 200)
     chk.notes.append("oracle: worst observed value as a fraction of its tolerance, per phase_covariance clause: %s"
                      % json.dumps({k: float("%.2e" % v) for k, v in sorted(WORST.items())}))
